@@ -155,9 +155,14 @@ func (root *Root) resolve(
 		return nil, nil
 	}
 	if depth <= 0 {
-		// If not intended then generate an error later when trying to
-		// generate output.
-		return obj, nil
+		if _, ok := obj.(*Subscription); ok {
+			// A subscription operation is resolved just deep enough to
+			// get at the subscriptions, which are then registered.
+			return obj, nil
+		}
+		// The value has not been resolved and coerced so it does not
+		// belong in the response.
+		return nil, []error{resWarnp(field, "maximum resolve depth of %d exceeded", MaxResolveDepth)}
 	}
 	switch tt := t.(type) {
 	case *List:
